@@ -17,10 +17,10 @@ INVS = ["Inv_NoAckedLoss", "Inv_Conservation", "Inv_BarrierClosesGap"]
 PROPS = ["Prop_FlushCovers"]
 
 
-def consts(clients, maxver, maxadmin, maxflush, barrier=False, closewaits=False, snapfails=True):
+def consts(clients, maxver, maxadmin, maxflush, barrier=False, closewaits=False, snapfails=True, capturewaits=True):
     return {"Clients": "<- " + clients, "MaxVer": maxver, "MaxAdmin": maxadmin, "MaxFlush": maxflush,
             "Barrier": "TRUE" if barrier else "FALSE", "CloseWaits": "TRUE" if closewaits else "FALSE",
-            "SnapFails": "TRUE" if snapfails else "FALSE"}
+            "SnapFails": "TRUE" if snapfails else "FALSE", "CaptureWaits": "TRUE" if capturewaits else "FALSE"}
 
 
 def model_check(chk, name, c, timeout):
@@ -109,7 +109,7 @@ c_TClients == {%s}
 def validate_trace(path, clients):
     mc = TRACE_MC % ", ".join('"%s"' % c for c in clients)
     cfg = make_cfg("TraceSpec", {"Clients": "<- c_TClients", "MaxVer": 1000000, "MaxAdmin": 1000000, "MaxFlush": 1000000,
-                                 "Barrier": "FALSE", "CloseWaits": "FALSE", "SnapFails": "TRUE"},
+                                 "Barrier": "FALSE", "CloseWaits": "FALSE", "SnapFails": "TRUE", "CaptureWaits": "TRUE"},
                    ["TInv_NoAckedLoss"], [], constraint="HighWater", postcondition="TraceAccepted")
     r = run_tlc("MC_TraceWriter", "t.cfg", cfg_text=cfg, extra_files={"MC_TraceWriter.tla": mc}, workers=1, timeout=600,
                 dfs=True, env_extra={"TRACE": path})
